@@ -36,6 +36,9 @@
 //	mode=race kind=<pool kind> n=<instances> shots=<K> [pre=1] [sc=<clients>] [agg=phout] [steps= failat= fail=]
 //	    the real engine in a child process (GORACE log to a file, never halting); observation = race report sites
 //	    (only a -race build can see any) and fatal runtime errors / panics.
+//	mode=pools kind=httpscen order=<letters> tags=<tA;tB…> nm=<nonce> [par=1]
+//	    (round 6) several pools in ONE process, built from one skeleton: what each shot sends must be what its own pool's
+//	    ammo file says (twopools.go).
 //	mode=hammer obj=<shared object> n=<goroutines> calls=<K>
 //	    n goroutines call the instance-facing API of ONE real shared object (child process, race detector).
 //
@@ -85,7 +88,8 @@ func main() {
 			"2..4 instances taking turns in a random order (one of them often keeping its ammo through whole passes of the others) behind http providers " +
 			"with random preload / JSON-array file / request middlewares / ammo and option headers with and without Host / 1..4 ammo in the file, the grpc/json " +
 			"and the scenario providers (content of every delivery at Acquire, at Shoot and on a fresh pool's first pass; units of other instances' ammo changed by a step); " +
-			"results of every templater / preprocessor / postprocessor kept across 6..60 later calls; per-sample hand-over word (take/write/give) of real shots of every gun " +
+			"results of every templater / preprocessor / postprocessor kept across 6..60 later calls; 2..3 pools in one process built from one skeleton " +
+			"(equal scenario / request names, different template texts and variables; sequential in a random order, and one goroutine per pool): what every shot sends against its own pool's file; per-sample hand-over word (take/write/give) of real shots of every gun " +
 			"kind on every failure path of a scenario step (random scenario length and failing step); gun identity/overlap probe " +
 			"through the real engine with 1..16 instances; race-detector sweep of whole pools with 2..24 instances (discard and " +
 			"phout aggregators, scenarios with a failing step) and of each shared object (iterator, random sources, template " +
